@@ -14,7 +14,9 @@ from .common import enc_str, enc_list, dec_str, dec_list
 
 PLAN = str(Path(__file__).resolve().parent / "plan.sh")
 NAMES = ["a", "b", "c", "d", "e.txt"]
-UNIVERSE_NAME = NAMES + ["x", "y", "z", ".h", "", "a/b", ".", "..", "s", "t"]
+UNIVERSE_NAME = NAMES + ["x", "y", "z", ".h", "", "a/b", ".", "..", "s", "t",
+                         # legal here although other platforms refuse them
+                         " x", "x ", "x.", "con", "a:b", "q?", "a*b", "x\ty"]
 UNIVERSE_PATH = NAMES + ["x", "y", "s/x", "s/a", "t/y", "n/m/x", "../x", "../../etc/x", "/abs/x", "./a", "s/../y", "s",
                          "", "x/", "a/b", "n/../a", "q/../b", "n/../c", "s/../a"]
 STRATEGY_FLAG = {"stop": "-cs", "ignore": "-ci", "override": "-co", "manual": "-cm"}
